@@ -549,3 +549,44 @@ def id_between(ctx):
                 errs.append('with a single bound the %s position is taken from %s, not from the first path node (identifiers are compared from the first node on)'
                             % (nm, fmt(a, 4)))
         ctx.check(not errs, 'one-bound', body, 'position derived from the first node of the bound', errs[0] if errs else '', line=block_line(it, bb))
+
+
+@rule('LIST-APPLY', {
+    'C12': 'an Insert must insert exactly the op\'s identifier and value (if absent) and a Delete must remove exactly the op\'s identifier',
+}, floor=2)
+def list_apply(ctx):
+    """List::apply under the gate: Insert -> seq gains (op.id, op.val); Delete -> seq loses op.id; nothing else of seq changes."""
+    facts = ctx.facts
+    from .gates import _gate_eval
+    body = ctx.method(LIST, 'CmRDT', 'apply')
+    it = interp(facts, body)
+    for v, how, want in (('Insert', {'entry', 'insert', 'or_insert', 'or_insert_with'}, 'Insert.id'), ('Delete', {'remove', 'remove_entry'}, 'Delete.id')):
+        found = []
+        rc, _ = _gate_eval(ctx, body, 'crdts::list::Op', v, LT, found)
+        good, other = [], []
+        for bb, c in it.calls.items():
+            if bb not in rc.reachable:
+                continue
+            info = cinfo(c.cid)
+            effs = [e for e in call_effects(facts, it, bb) if e.param == 1 and e.path[:1] == ('seq',)]
+            if not effs:
+                continue
+            ids = [a for a in c.args[1:] if param_path(a.val) and param_path(a.val)[0] == 2 and param_path(a.val)[1][-1:] == (want,)]
+            hows = set(e.how for e in effs)
+            if ids and hows <= how:
+                if v == 'Insert':
+                    vals = [a for a in c.args[1:] if param_path(a.val) and param_path(a.val)[1][-1:] == ('Insert.val',)]
+                    if vals:
+                        good.append(bb)
+                    else:
+                        other.append((bb, 'the inserted value is not the value of the op'))
+                else:
+                    good.append(bb)
+            else:
+                other.append((bb, 'seq is changed by %s with %s' % (sorted(hows), [fmt(a.val, 3) for a in c.args[1:]])))
+        errs = []
+        if not good or not rc.must_pass(good):
+            errs.append('a new %s op does not %s its identifier on every path' % (v, 'insert' if v == 'Insert' else 'remove'))
+        if other:
+            errs.append('%s arm: %s' % (v, other[0][1]))
+        ctx.check(not errs, v, body, 'seq %s (op.id%s)' % ('gains' if v == 'Insert' else 'loses', ', op.val' if v == 'Insert' else ''), errs[0] if errs else '')
